@@ -587,6 +587,31 @@ def process(chk, co, rng, lines, pending, ix_override=None, scalar=False):
         chk.tag("age_styles", s)
 
 
+def reuse_same_object(env, chk, co, rng, lines, pending):
+    """History clause: the SAME model object after its parameters were replaced in place (`load_parameters`) must follow
+    the new parameters. The expected population values are read off a fresh model loaded from the same settings, so a value
+    left over from before the update (a cached working copy, a population variable not re-derived) is a closed-form mismatch."""
+    st2 = random_settings(rng, co.pop["kind"], co.pop["d"], co.pop["ns"])
+    try:
+        with core.quiet():
+            co.model.load_parameters(dict(st2["parameters"]))
+            fresh = env["BaseModel"].load(st2)
+    except Exception as e:  # noqa
+        chk.impl_failure(co.case_json({"op": "load_parameters", "new_parameters": st2["parameters"]}),
+                         f"replacing the parameters of a loaded model in place raised {err_class(e, env)}: {e}")
+        return
+    pop2 = pop_of_model(fresh)
+    if pop2 is None:
+        return
+    co.pop = pop2
+    co.tag = str(co.tag) + "+parameters-replaced-in-place"
+    for sid in list(co.ips):
+        co.ips[sid] = random_ip(rng, pop2)
+        co.ages[sid], _ = random_ages(rng, co.ips[sid]["tau"])
+    process(chk, co, rng, lines, pending)
+    chk.tag("history", "estimate after in-place load_parameters")
+
+
 def probe_findings(chk, env, rng, lines, pending):
     """Witnesses of F17 / F18 (status `fixed`: a reproduction is a regression and is reported as a violation)."""
     st = random_settings(rng, "logistic", 2, 1)
@@ -642,6 +667,8 @@ def run(chk: core.Check):
             co = build_cohort(env, chk, rng, settings=random_settings(rng, kind, d, ns))
             if co is not None:
                 process(chk, co, rng, lines, pending, scalar=(rng.random() < 0.15))
+                if rng.random() < 0.4:
+                    reuse_same_object(env, chk, co, rng, lines, pending)
     stored = sorted(glob.glob(str(core.REPO / "tests/_data/model_parameters/**/*.json"), recursive=True))
     if chk.tier == "quick":
         stored = [p for p in stored if "_arm" not in p and "gpu" not in p]
